@@ -809,7 +809,10 @@ ProcDecl:
 ProcBody:
         ProcLocalDeclList States LocFlags Init Transitions
 	| ProcLocalDeclList States Branchpoints LocFlags Init Transitions
-	| /* empty */
+	| /* empty */ {
+          /* the XML reader reports a template without an init element the same way */
+          CALL(@$, @$, handle_error(TypeException{"$Missing_initial_location"}));
+        }
         ;
 
 ProcLocalDeclList:
